@@ -72,7 +72,16 @@ type World struct {
 
 var deadCtx = func() context.Context { c, cancel := context.WithCancel(context.Background()); cancel(); return c }()
 
-// PublishCancelled publishes a fresh event of type t with an already cancelled context.
+// expiredCtx has ended through a deadline in the past (Err() == DeadlineExceeded).
+var expiredCtx = func() context.Context {
+	c, cancel := context.WithDeadline(context.Background(), time.Unix(1, 0))
+	_ = cancel
+	<-c.Done()
+	return c
+}()
+
+// PublishCancelled publishes a fresh event of type t with a context that has already ended
+// (cancelled for odd event ids, deadline expired for even ones).
 func (w *World) PublishCancelled(g, t int) uint64 {
 	id := w.NextEID()
 	w.cmu.Lock()
@@ -81,7 +90,11 @@ func (w *World) PublishCancelled(g, t int) uint64 {
 	}
 	w.Cancelled[id] = true
 	w.cmu.Unlock()
-	return w.PublishID(g, t, &NoisyCtx{Context: deadCtx, W: w, EID: id}, id)
+	dead := deadCtx
+	if id%2 == 0 {
+		dead = expiredCtx
+	}
+	return w.PublishID(g, t, &NoisyCtx{Context: dead, W: w, EID: id}, id)
 }
 
 // NewWorld creates a world over the given drivers; opts are extra bus options.
